@@ -30,8 +30,8 @@ CHECKS = {
    note="Trusted: as C03. In the concurrent configuration equal-counter scratchpads may resolve either way.",
    technique="deterministic simulation: gate-scheduled interleaving of overlapping updates to one key, monotone/union model oracle"),
  "C05": dict(sim="getrecord", level="exploration", ref="5 C05",
-   text="Seeded search over 1-4 concurrent callers of the real Network::get_record_from_network for one key (own quorum One / Majority / All / N(1..8) and expected record each) and a stream of kad progress events fed to the real SwarmDriver handlers in seeded order: FoundRecord from up to 8 peers holding up to 4 versions (opaque, registers incl. unverifiable, transaction sets, scratchpads valid/unsigned/forged, mixed kinds), duplicates, changed answers, late callers, and every terminal event. Each caller's outcome is judged against its own quorum and target: Ok needs >= Q distinct peers with byte-identical content matching the target, or the reference merge of the delivered versions; when differing versions had been delivered before the read completed, Ok must be their merge even if one version reached the quorum; every caller gets exactly one outcome and no query entry survives its terminal event. Every run is executed a second time under different HashMap seeds with byte-identical records and must give the same outcomes (hash-order metamorphic check).",
-   note="Trusted: the simulator plays libp2p's kad query engine by emitting the kad::Event values the engine emits; caller cancellation not injected; back-off retries only with a single caller (unseeded jitter).",
+   text="Seeded search over 1-4 concurrent callers of the real Network::get_record_from_network for one key (own quorum One / Majority / All / N(1..8) and expected record each) and a stream of kad progress events fed to the real SwarmDriver handlers in seeded order: FoundRecord from up to 8 peers holding up to 4 versions (opaque, registers incl. unverifiable, transaction sets, scratchpads valid/unsigned/forged, mixed kinds), duplicates, changed answers, late callers, callers that give up (future dropped) while others wait on the same query, and every terminal event. Each caller's outcome is judged against its own quorum and target: Ok needs >= Q distinct peers with byte-identical content matching the target, or the reference merge of the delivered versions; when differing versions had been delivered before the read completed, Ok must be their merge even if one version reached the quorum; every caller gets exactly one outcome and no query entry survives its terminal event. Every run is executed a second time under different HashMap seeds with byte-identical records and must give the same outcomes (hash-order metamorphic check).",
+   note="Trusted: the simulator plays libp2p's kad query engine by emitting the kad::Event values the engine emits; back-off retries only with a single caller (unseeded jitter).",
    technique="deterministic simulation: synthetic kad progress events in seeded order against the real accumulation handlers, per-caller quorum/merge oracle"),
  "C14": dict(sim="client", level="exploration", ref="5 C14",
    text="Seeded search over inputs drawn around the self-encryption size-class boundaries (0..2 bytes, 3, k*MAX_CHUNK_SIZE +/- 1, random; random and repetitive content): the real encrypt() is run twice (chunk size, content addressing by an independent sha3-256, determinism), then the real Client::data_get_public reads the data back while the simulator completes the chunk queries in seeded order with duplicated replies; in mode fault one chunk query is answered not-found / timeout and the read must fail. Two builds are run: default (1 MiB chunks) and MAX_CHUNK_SIZE=1024, where inputs of 150-420 KiB need three data-map levels (four in the thorough tier; the harness counts levels itself).",
